@@ -16,6 +16,17 @@ package tcp
 // genuine crypto/tls ClientHello); the client receives the upstream's stream; exactly once, in order,
 // unmodified. Full delivery is demanded in every close order in which the statement demands it
 // (see c09Need); under an injected reset only that tunnel is relaxed to "prefix".
+//
+// Time: the listener's read/write timeouts and the dial timeout are part of the scenario (unset / short /
+// long), peers' scripts contain pauses shorter and longer than them, and the driver moves the simulated
+// clock (c09Pacer). A timeout entitles fabio to end a tunnel only in the situations c09Timing observes
+// (the client silent for the read timeout, bytes for the client waiting for the write timeout, the
+// upstream not connected within the dial timeout); in every other run the full oracle applies however
+// late a peer acts.
+//
+// Tunnels of one run start concurrently or one after the other (a tunnel may wait until an earlier one
+// is completely over), and on tcp+sni their ClientHellos differ widely in length, so that anything fabio
+// carries over from one connection to another shows up as foreign bytes in a stream.
 
 import (
 	"bytes"
@@ -25,6 +36,7 @@ import (
 	"io"
 	"net"
 	"strings"
+	"sync"
 	"testing/synctest"
 	"time"
 
@@ -49,6 +61,17 @@ type h3Env struct {
 	// onDial is told about every upstream dial fabio makes, before it is made
 	onDial func(addr string)
 	nsrv   int
+	// optional hooks of a harness: peerFilter sees (and may withhold or wrap) the peers' events at every
+	// quiescent state, onNetEvent is told the key of every network event after it fired, sample runs at
+	// every quiescent state of run()
+	peerFilter func([]simcore.Event) []simcore.Event
+	onNetEvent func(key string)
+	sample     func()
+	// nudge, if set, is added to the simulated clock after every driver event, so that no two events -
+	// and no two timers armed by the goroutines they wake - share an instant: fabio goroutines that do not
+	// yield at statements run freely when a timer wakes them, and two of them woken at the same instant
+	// would race in real time (e.g. for the server's mutex)
+	nudge time.Duration
 }
 
 func h3NewEnv(r *simcore.Run) *h3Env {
@@ -62,10 +85,32 @@ func h3NewEnv(r *simcore.Run) *h3Env {
 		}
 		return base(ctx, network, addr, timeout, keepAlive)
 	}
-	e.d.AddSource(e.net.Events)
+	e.d.AddSource(func() []simcore.Event {
+		ev := e.net.Events()
+		if e.onNetEvent != nil {
+			for i := range ev {
+				key, fire := ev[i].Key, ev[i].Fire
+				ev[i].Fire = func() { fire(); e.onNetEvent(key) }
+			}
+		}
+		return ev
+	})
 	e.peers = simpeer.NewGroup(r, e.net)
-	e.d.AddSource(e.peers.Events)
+	e.d.AddSource(func() []simcore.Event {
+		ev := e.peers.Events()
+		if e.peerFilter != nil {
+			ev = e.peerFilter(ev)
+		}
+		return ev
+	})
 	return e
+}
+
+// advance moves the simulated clock. Tasks standing at a statement of fabio code run on first (and so do
+// tasks that a timer releases on the way): no simulated time passes between two statements of fabio code,
+// e.g. between arming a deadline and the operation it is meant for.
+func (e *h3Env) advance(dt time.Duration) {
+	e.d.AdvanceRunningTasks(dt, max(dt/8, time.Millisecond))
 }
 
 // serve runs the real accept loop of e.srv on a new simnet listener, as a task: the per-connection
@@ -86,20 +131,37 @@ func (e *h3Env) serve(key string) {
 func (e *h3Env) run(maxSteps int, done func() bool) (finished, stuck bool) {
 	for i := 0; i < maxSteps; i++ {
 		synctest.Wait()
+		if e.sample != nil {
+			e.sample()
+		}
 		if done() {
 			return true, false
 		}
 		if !e.d.Step() {
 			synctest.Wait()
+			if e.sample != nil {
+				e.sample()
+			}
 			return done(), true
+		}
+		if e.nudge > 0 {
+			// what the event did is observed at the instant of the event
+			synctest.Wait()
+			if e.sample != nil {
+				e.sample()
+			}
+			time.Sleep(e.nudge)
 		}
 	}
 	synctest.Wait()
+	if e.sample != nil {
+		e.sample()
+	}
 	return done(), false
 }
 
-// clock offers small advances of the simulated clock, never more than budget in total (the budget
-// stays below every configured timeout, so that no timeout fires in a run that injects none).
+// clock offers small advances of the simulated clock at any moment (time that passes while bytes are in
+// flight), never more than budget in total.
 func (e *h3Env) clock(budget time.Duration) simcore.Source {
 	var used time.Duration
 	steps := []time.Duration{time.Millisecond, 20 * time.Millisecond, 300 * time.Millisecond, time.Second}
@@ -110,7 +172,7 @@ func (e *h3Env) clock(budget time.Duration) simcore.Source {
 		return []simcore.Event{{Key: "zclock", Fire: func() {
 			dt := steps[e.r.Sched.Intn(len(steps))]
 			used += dt
-			e.d.Advance(dt)
+			e.advance(dt)
 		}}}
 	}
 }
@@ -175,7 +237,11 @@ type c09Tunnel struct {
 	RouteSrc string        `json:"route_src"`
 	Name     string        `json:"server_name,omitempty"`
 	Hello    string        `json:"client_hello,omitempty"`
+	HelloPad int           `json:"client_hello_padding_extension,omitempty"`
+	HelloTkt int           `json:"client_hello_session_ticket_extension,omitempty"`
 	HelloLen int           `json:"client_hello_len,omitempty"`
+	After    int           `json:"starts_when_tunnel_n_is_over,omitempty"` // 1-based, 0: starts right away
+	Pauses   []c09PauseGen `json:"pauses,omitempty"`
 	Up       string        `json:"upstream"`
 	Pxy      bool          `json:"pxyproto"`
 	CLen     int           `json:"client_bytes"`
@@ -195,6 +261,17 @@ type c09Tunnel struct {
 	cl, up *simpeer.Peer
 }
 
+// c09PauseGen is a pause somewhere in a peer's script: the peer does nothing for Pct percent of Ref.
+type c09PauseGen struct {
+	Upstream bool `json:"upstream_side,omitempty"`
+	// Steady: a pause before every write, half-close and close of that side (a slow but steady peer: every
+	// gap shorter than the reference, the whole longer); otherwise one pause at one place
+	Steady bool          `json:"before_every_write_and_close,omitempty"`
+	Where  int           `json:"position_draw"`
+	Ref    time.Duration `json:"relative_to"`
+	Pct    int           `json:"percent"`
+}
+
 type c09Scenario struct {
 	Mode         string        `json:"mode"`
 	V6           bool          `json:"ipv6"`
@@ -202,6 +279,10 @@ type c09Scenario struct {
 	Stick        int           `json:"stick"`
 	ReadTimeout  time.Duration `json:"read_timeout"`
 	WriteTimeout time.Duration `json:"write_timeout"`
+	DialTimeout  time.Duration `json:"dial_timeout"`
+	// EagerPauses: a scripted pause may elapse at any moment (bytes stay in flight meanwhile); otherwise
+	// scripted time passes only when nothing else can happen (everything sent has arrived)
+	EagerPauses bool `json:"pauses_elapse_with_bytes_in_flight,omitempty"`
 	// EOFWithData: the connections' Read returns the last bytes of a stream together with io.EOF when the
 	// FIN has arrived before those bytes were read (legal for an io.Reader; crypto/tls does it)
 	EOFWithData bool         `json:"read_returns_last_bytes_with_eof,omitempty"`
@@ -212,7 +293,13 @@ type c09Scenario struct {
 // "halfclose" is the client half-closing first, "upstream-halfclose" its mirror.
 var c09Orders = []string{"client-first", "upstream-first", "simultaneous", "halfclose", "client-abrupt", "upstream-abrupt", "upstream-halfclose"}
 var c09Modes = []string{"tcp", "sni", "dynamic"}
-var c09Timeouts = []time.Duration{0, 30 * time.Second, 5 * time.Minute}
+var c09Timeouts = []time.Duration{0, 30 * time.Second, 5 * time.Minute, 2 * time.Second}
+var c09DialTimeouts = []time.Duration{20 * time.Second, 3 * time.Second}
+var c09Hellos = []string{"default", "x25519-only", "tls12", "alpn-6k", "alpn-small", "alpn-2k", "all-ciphers", "p-curves"}
+
+// c09Pause is not an action of simpeer (the peer steps over it): the harness turns the event of such an
+// action into the passing of N milliseconds since the action became the peer's next one (c09Pacer).
+const c09Pause = "pause"
 
 func c09Size(g *simcore.Tape, max int) int {
 	switch g.Intn(6) {
@@ -258,11 +345,20 @@ func c09Gen(g *simcore.Tape, thorough bool) *c09Scenario {
 	sc.Stick = simcore.Pick(g, []int{1, 3, 8})
 	sc.ReadTimeout = simcore.Pick(g, c09Timeouts)
 	sc.WriteTimeout = simcore.Pick(g, c09Timeouts)
+	sc.DialTimeout = simcore.Pick(g, c09DialTimeouts)
+	sc.EagerPauses = g.Chance(25)
+	refs := []time.Duration{10 * time.Second, sc.DialTimeout}
+	if sc.ReadTimeout > 0 {
+		refs = append(refs, sc.ReadTimeout, sc.ReadTimeout)
+	}
+	if sc.WriteTimeout > 0 {
+		refs = append(refs, sc.WriteTimeout)
+	}
 	max := 72 << 10 // above the copy buffer (32 KiB) and the simnet window (64 KiB)
 	if thorough {
 		max = 200 << 10
 	}
-	nt := g.Range(1, 3)
+	nt := g.Range(1, 4)
 	var table strings.Builder
 	for j := 0; j < nt; j++ {
 		t := &c09Tunnel{Up: fmt.Sprintf("up%d.sim:9000", j)}
@@ -274,7 +370,15 @@ func c09Gen(g *simcore.Tape, thorough bool) *c09Scenario {
 		switch sc.Mode {
 		case "sni":
 			t.Listen = net.JoinHostPort(host, "443")
-			t.Name = fmt.Sprintf("svc%d.example.com", j)
+			// server names of very different lengths
+			switch g.Intn(4) {
+			case 0, 1:
+				t.Name = fmt.Sprintf("svc%d.example.com", j)
+			case 2:
+				t.Name = fmt.Sprintf("s%d.io", j)
+			case 3:
+				t.Name = fmt.Sprintf("svc%d.%sexample.com", j, strings.Repeat("a-rather-long-label-of-a-simulated-name.", g.Range(1, 5)))
+			}
 			t.RouteSrc = t.Name + "/"
 		case "tcp":
 			t.Listen = net.JoinHostPort(host, fmt.Sprint(7001+j))
@@ -291,7 +395,32 @@ func c09Gen(g *simcore.Tape, thorough bool) *c09Scenario {
 		t.CLen = c09Size(g, max)
 		t.ULen = c09Size(g, max)
 		if sc.Mode == "sni" {
-			t.Hello = simcore.Pick(g, []string{"default", "x25519-only", "tls12", "alpn-6k"})
+			// ClientHellos of very different lengths: what crypto/tls emits for the configuration, optionally
+			// followed by a padding and/or a session_ticket extension
+			t.Hello = simcore.Pick(g, c09Hellos)
+			switch g.Intn(4) {
+			case 1:
+				t.HelloPad = g.Range(1, 300)
+			case 2:
+				t.HelloPad = g.Range(301, 9000)
+			}
+			if g.Chance(25) {
+				t.HelloTkt = g.Range(16, 1500)
+			}
+		}
+		// this tunnel starts right away (concurrently with the others) or when an earlier one is over
+		if j > 0 && g.Bool() {
+			t.After = 1 + g.Intn(j)
+		}
+		// pauses in the scripts, shorter and longer than the configured timeouts
+		if g.Chance(45) {
+			for i, n := 0, g.Range(1, 3); i < n; i++ {
+				p := c09PauseGen{Upstream: g.Bool(), Where: g.Intn(1 << 16), Ref: simcore.Pick(g, refs), Pct: simcore.Pick(g, []int{40, 250, 110, 90})}
+				if g.Chance(35) {
+					p.Steady, p.Pct = true, simcore.Pick(g, []int{40, 90})
+				}
+				t.Pauses = append(t.Pauses, p)
+			}
 		}
 		// half-close orders: one side sends its whole stream and half-closes, the other side has sent a
 		// PRNG part of its stream by then and sends the rest (at least one byte) afterwards - either
@@ -340,8 +469,30 @@ func c09Build(g *simcore.Tape, sc *c09Scenario) {
 				cfg.MaxVersion = tls.VersionTLS12
 			case "alpn-6k":
 				cfg.NextProtos = h3ALPN(30, 190)
+			case "alpn-small":
+				cfg.NextProtos = h3ALPN(3, 1)
+			case "alpn-2k":
+				cfg.NextProtos = h3ALPN(10, 190)
+			case "all-ciphers":
+				cfg.MaxVersion = tls.VersionTLS12
+				for _, cs := range tls.CipherSuites() {
+					cfg.CipherSuites = append(cfg.CipherSuites, cs.ID)
+				}
+				for _, cs := range tls.InsecureCipherSuites() {
+					cfg.CipherSuites = append(cfg.CipherSuites, cs.ID)
+				}
+			case "p-curves":
+				cfg.CurvePreferences = []tls.CurveID{tls.CurveP256, tls.CurveP384, tls.CurveP521}
 			}
 			hello = h3ClientHello(cfg)
+			var extra []byte
+			if t.HelloPad > 0 {
+				extra = append(extra, c09Extension(21, min(t.HelloPad, 16000-len(hello)-8-t.HelloTkt), j)...)
+			}
+			if t.HelloTkt > 0 {
+				extra = append(extra, c09Extension(35, t.HelloTkt, j)...)
+			}
+			hello = c09AddExtensions(hello, extra)
 			t.HelloLen = len(hello)
 		}
 		t.c = append(hello, simpeer.Stream(g, t.CLen, 0xC0000000|uint32(j)<<20)...)
@@ -411,8 +562,84 @@ func c09Build(g *simcore.Tape, sc *c09Scenario) {
 		case "reset-upstream":
 			ua = insert(ua, 0, len(uw))
 		}
+		// pauses: anywhere after the client's dial / from the upstream's very first action on, never after
+		// the last action
+		for _, p := range t.Pauses {
+			a, lo := &ca, 1
+			if p.Upstream {
+				a, lo = &ua, 0
+			}
+			if len(*a) <= lo {
+				continue
+			}
+			at := lo + p.Where%(len(*a)-lo)
+			ms := int(p.Ref/time.Millisecond)*p.Pct/100 + 7
+			var out []simpeer.Act
+			for i, x := range *a {
+				sends := x.Kind == simpeer.Write || x.Kind == simpeer.CloseWrite || x.Kind == simpeer.Close
+				if (p.Steady && sends && i >= lo) || (!p.Steady && i == at) {
+					out = append(out, act(c09Pause, ms))
+				}
+				out = append(out, x)
+			}
+			*a = out
+		}
 		t.CActs, t.UActs = ca, ua
 	}
+}
+
+// c09Extension returns a ClientHello extension of the given type with n body bytes that say which tunnel
+// they belong to and where they stand.
+func c09Extension(typ, n, tunnel int) []byte {
+	n = max(n, 0)
+	b := []byte{byte(typ >> 8), byte(typ), byte(n >> 8), byte(n)}
+	for i := 0; i < n; i++ {
+		switch i % 4 {
+		case 0:
+			b = append(b, 0xA0|byte(tunnel))
+		case 1:
+			b = append(b, byte(typ))
+		case 2:
+			b = append(b, byte(i>>10))
+		default:
+			b = append(b, byte(i>>2))
+		}
+	}
+	return b
+}
+
+// c09AddExtensions appends extensions to a well-formed ClientHello record (as crypto/tls emits it) and
+// adjusts the three enclosing lengths; a record without an extensions block is returned as it is.
+func c09AddExtensions(rec, extra []byte) []byte {
+	if len(extra) == 0 || len(rec) < 9+2+32+1 {
+		return rec
+	}
+	b := rec[9:]
+	p := 2 + 32
+	p += 1 + int(b[p]) // session id
+	if p+2 > len(b) {
+		return rec
+	}
+	p += 2 + (int(b[p])<<8 | int(b[p+1])) // cipher suites
+	if p+1 > len(b) {
+		return rec
+	}
+	p += 1 + int(b[p]) // compression methods
+	if p+2 > len(b) {
+		return rec
+	}
+	xl := int(b[p])<<8 | int(b[p+1])
+	if p+2+xl != len(b) || xl+len(extra) > 0xffff || len(rec)-5+len(extra) > 16384 {
+		return rec
+	}
+	out := append(append([]byte(nil), rec...), extra...)
+	xl += len(extra)
+	out[9+p], out[9+p+1] = byte(xl>>8), byte(xl)
+	hl := len(out) - 9
+	out[6], out[7], out[8] = byte(hl>>16), byte(hl>>8), byte(hl)
+	rl := len(out) - 5
+	out[3], out[4] = byte(rl>>8), byte(rl)
+	return out
 }
 
 // c09Need says for which directions the statement demands complete delivery in this close order.
@@ -440,6 +667,221 @@ func c09Need(mode string, t *c09Tunnel) (upFull, clFull bool) {
 	return true, true
 }
 
+// ---------------------------------------------------------------- time and order of the tunnels
+
+// c09Over: the tunnel is completely over - both peers have played their scripts and seen the end of
+// their incoming streams, and fabio has closed both of its connection ends.
+func c09Over(t *c09Tunnel) bool {
+	if t.cl.DialErr() != nil {
+		return true
+	}
+	c := t.cl.Conn()
+	if c == nil || !t.cl.Complete() || !c.Peer().IsClosed() {
+		return false
+	}
+	if u := t.up.Conn(); u != nil && (!t.up.Complete() || !u.Peer().IsClosed()) {
+		return false
+	}
+	return true
+}
+
+// c09Pacer decides when the peers' events are offered to the driver: the dial of a tunnel that starts
+// after another one is withheld until that one is over, and a pause elapses - the event of a pause moves
+// the simulated clock to the end of the pause and lets the peer go on.
+type c09Pacer struct {
+	e       *h3Env
+	sc      *c09Scenario
+	peers   map[string]*simpeer.Peer
+	tunnel  map[string]*c09Tunnel
+	started map[string]time.Time
+}
+
+func (p *c09Pacer) filter(ev []simcore.Event) []simcore.Event {
+	var out, pauses []simcore.Event
+	busy := false
+	for _, x := range ev {
+		name := strings.TrimPrefix(x.Key, "peer:")
+		peer := p.peers[name]
+		if peer == nil { // a reader stops / resumes reading: may happen at any moment, also while time passes
+			out = append(out, x)
+			continue
+		}
+		next, _ := peer.Progress()
+		a := peer.Acts[next]
+		if t := p.tunnel[name]; a.Kind == simpeer.Dial && t.After > 0 && !c09Over(p.sc.Tunnels[t.After-1]) {
+			continue
+		}
+		if a.Kind != c09Pause {
+			out = append(out, x)
+			busy = true
+			continue
+		}
+		key := fmt.Sprintf("%s#%d", name, next)
+		st, seen := p.started[key]
+		if !seen {
+			st = time.Now()
+			p.started[key] = st
+		}
+		wake, fire := st.Add(time.Duration(a.N)*time.Millisecond), x.Fire
+		x.Fire = func() {
+			if rem := time.Until(wake); rem > 0 {
+				p.e.r.Probe("pause_elapsed")
+				p.e.advance(rem)
+			}
+			fire()
+		}
+		pauses = append(pauses, x)
+	}
+	if len(pauses) > 0 && !p.sc.EagerPauses && (busy || len(p.e.d.Sim.Enabled()) > 0 || len(p.e.net.Events()) > 0) {
+		return out
+	}
+	return append(out, pauses...)
+}
+
+// c09Timing observes, at every quiescent state, the only situations in which a configured timeout
+// entitles fabio to end a tunnel (the readings are in the assumptions of the check):
+//
+//   - read timeout T of the listener: a peer (the client - or the upstream: the narrower reading lets the
+//     listener's timeout bound the reads of the tunnel's other connection as well) is connected, the end
+//     of its stream has not been delivered to fabio, and for T or longer no byte of it was delivered to
+//     fabio ("fabio waited T for data from that peer");
+//   - write timeout T of the listener: for T or longer without interruption there were bytes which fabio
+//     had written to a peer's connection and which that peer had not taken yet;
+//   - dial timeout T: the upstream connection was not established within T after fabio asked for it.
+//
+// All are measured up to the moment fabio closed its end of the connection in question: time that passes
+// after fabio gave up justifies nothing. A peer that is merely slow - every gap shorter than T, the whole
+// longer - entitles to nothing, and neither does a peer to which fabio has nothing to write.
+type c09Timing struct {
+	sc *c09Scenario
+	mu sync.Mutex // dials are reported by fabio's goroutines
+	by map[string]*c09Times
+}
+
+// c09Side: one of the two connections of a tunnel, seen from the peer's end.
+type c09Side struct {
+	est       bool
+	lastIn    time.Time // establishment / last delivery of this peer's bytes to fabio
+	delivered int64
+	fin       bool // the end of this peer's stream has been delivered to fabio
+	silence   time.Duration
+	drained   time.Time // last moment at which nothing fabio wrote was waiting for this peer
+	waiting   time.Duration
+}
+
+type c09Times struct {
+	cl, up   c09Side
+	dialAt   time.Time
+	dialWait time.Duration
+}
+
+func (m *c09Timing) of(t *c09Tunnel) *c09Times {
+	x := m.by[t.Up]
+	if x == nil {
+		x = &c09Times{}
+		m.by[t.Up] = x
+	}
+	return x
+}
+
+func (m *c09Timing) dial(addr string) {
+	m.mu.Lock()
+	defer m.mu.Unlock()
+	for _, t := range m.sc.Tunnels {
+		if t.Up == addr {
+			m.of(t).dialAt = time.Now()
+		}
+	}
+}
+
+// netEvent: the delivery of a FIN to fabio (c2s on a client's connection, s2c on an upstream's).
+func (m *c09Timing) netEvent(key string) {
+	id, ok := strings.CutPrefix(key, "net:fin:")
+	if !ok {
+		return
+	}
+	m.mu.Lock()
+	defer m.mu.Unlock()
+	for _, t := range m.sc.Tunnels {
+		if t.cl == nil || t.up == nil {
+			continue
+		}
+		if c := t.cl.Conn(); c != nil && id == c.ID()+":c2s" {
+			m.of(t).cl.fin = true
+		}
+		if u := t.up.Conn(); u != nil && id == u.ID()+":s2c" {
+			m.of(t).up.fin = true
+		}
+	}
+}
+
+// observe updates one side; pe is the peer's end of the connection, its Peer() fabio's end.
+func (x *c09Side) observe(pe *simnet.Conn, now time.Time) (end time.Time) {
+	fe := pe.Peer()
+	end = now
+	if !x.est {
+		x.est, x.lastIn, x.drained = true, now, now
+	}
+	if fe.IsClosed() && fe.ClosedAt.Before(end) {
+		end = fe.ClosedAt
+	}
+	if _, d, _ := pe.Counters(); d > x.delivered {
+		x.delivered, x.lastIn = d, now
+	}
+	if !x.fin {
+		x.silence = max(x.silence, end.Sub(x.lastIn))
+	}
+	if sent, _, taken := fe.Counters(); sent == taken {
+		x.drained = now
+	} else {
+		x.waiting = max(x.waiting, end.Sub(x.drained))
+	}
+	return end
+}
+
+func (m *c09Timing) sample() {
+	m.mu.Lock()
+	defer m.mu.Unlock()
+	now := time.Now()
+	for _, t := range m.sc.Tunnels {
+		if t.cl == nil || t.up == nil {
+			continue
+		}
+		c := t.cl.Conn()
+		if c == nil {
+			continue
+		}
+		x := m.of(t)
+		end := x.cl.observe(c, now)
+		if u := t.up.Conn(); u != nil {
+			x.up.observe(u, now)
+		} else if !x.dialAt.IsZero() {
+			x.dialWait = max(x.dialWait, end.Sub(x.dialAt))
+		}
+	}
+}
+
+// entitled names the timeout that entitled fabio to end this tunnel ("" if none did).
+func (m *c09Timing) entitled(t *c09Tunnel) string {
+	m.mu.Lock()
+	defer m.mu.Unlock()
+	x := m.of(t)
+	rt, wt := m.sc.ReadTimeout, m.sc.WriteTimeout
+	switch {
+	case x.dialWait >= m.sc.DialTimeout:
+		return "dial-timeout"
+	case rt > 0 && x.cl.silence >= rt:
+		return "read-timeout/client-silent"
+	case rt > 0 && x.up.silence >= rt:
+		return "read-timeout/upstream-silent"
+	case wt > 0 && x.cl.waiting >= wt:
+		return "write-timeout/client-not-taking"
+	case wt > 0 && x.up.waiting >= wt:
+		return "write-timeout/upstream-not-taking"
+	}
+	return ""
+}
+
 // ---------------------------------------------------------------- the run
 
 func runC09(r *simcore.Run) {
@@ -459,20 +901,25 @@ func runC09(r *simcore.Run) {
 	var h Handler
 	switch sc.Mode {
 	case "tcp":
-		h = &Proxy{DialTimeout: 20 * time.Second, Lookup: lookup}
+		h = &Proxy{DialTimeout: sc.DialTimeout, Lookup: lookup}
 	case "sni":
-		h = &SNIProxy{DialTimeout: 20 * time.Second, Lookup: lookup}
+		h = &SNIProxy{DialTimeout: sc.DialTimeout, Lookup: lookup}
 	case "dynamic":
-		h = &DynamicProxy{DialTimeout: 20 * time.Second, Lookup: lookup}
+		h = &DynamicProxy{DialTimeout: sc.DialTimeout, Lookup: lookup}
 	}
 	e.srv = &Server{Handler: h, ReadTimeout: sc.ReadTimeout, WriteTimeout: sc.WriteTimeout}
 	if sc.Tasks {
 		e.d.Sim.Activate("proxy/tcp")
+	} else {
+		e.nudge = time.Microsecond
 	}
 	e.d.Stick = sc.Stick
-	if sc.ReadTimeout > 0 || sc.WriteTimeout > 0 {
-		e.d.AddSource(e.clock(8 * time.Second)) // below the dial timeout and every configured read/write timeout
+	if sc.ReadTimeout > 0 || sc.WriteTimeout > 0 || sc.DialTimeout < 10*time.Second {
+		e.d.AddSource(e.clock(8 * time.Second))
 	}
+	tm := &c09Timing{sc: sc, by: map[string]*c09Times{}}
+	pc := &c09Pacer{e: e, sc: sc, peers: map[string]*simpeer.Peer{}, tunnel: map[string]*c09Tunnel{}, started: map[string]time.Time{}}
+	e.onDial, e.onNetEvent, e.sample, e.peerFilter = tm.dial, tm.netEvent, tm.sample, pc.filter
 	listening := map[string]bool{}
 	for j, t := range sc.Tunnels {
 		if !listening[t.Listen] {
@@ -488,6 +935,8 @@ func runC09(r *simcore.Run) {
 		t.cl = e.peers.Client(fmt.Sprintf("c%d", j), c09Addr(t.Client), t.Listen, t.c, t.CActs)
 		t.cl.SetStalls(t.CStalls)
 		t.up.SetStalls(t.UStalls)
+		pc.peers[t.cl.Name], pc.peers[t.up.Name] = t.cl, t.up
+		pc.tunnel[t.cl.Name], pc.tunnel[t.up.Name] = t, t
 	}
 	finished, stuck := e.run(600000, e.peers.Done)
 	if !finished && !stuck {
@@ -495,7 +944,7 @@ func runC09(r *simcore.Run) {
 		return
 	}
 	for _, t := range sc.Tunnels {
-		c09Check(r, sc, t, t.cl.Complete() && t.up.Complete())
+		c09Check(r, sc, t, t.cl.Complete() && t.up.Complete(), tm.entitled(t))
 		// reads of fabio's two connection ends that returned the tail of a stream together with io.EOF
 		if c := t.cl.Conn(); c != nil && c.Peer() != nil {
 			r.ProbeN("fabio_read_data_with_eof_c2u", c.Peer().EOFWithDataReads())
@@ -506,12 +955,38 @@ func runC09(r *simcore.Run) {
 	}
 }
 
-func c09Check(r *simcore.Run, sc *c09Scenario, t *c09Tunnel, finished bool) {
+// c09Foreign says whose bytes the receiver got at offset at instead of its own stream's: bytes that
+// another connection of the same run carried (either direction), "" if they are nobody's.
+func c09Foreign(sc *c09Scenario, t *c09Tunnel, got []byte, at int) string {
+	if at >= len(got) || len(got)-at < 8 {
+		return ""
+	}
+	w := got[at:min(len(got), at+24)]
+	for _, o := range sc.Tunnels {
+		if o == t {
+			continue
+		}
+		if q := bytes.Index(o.c, w); q >= 0 {
+			return fmt.Sprintf("bytes that occur (at offset %d) in the stream of client %s", q, o.Client)
+		}
+		if q := bytes.Index(o.u, w); q >= 0 {
+			return fmt.Sprintf("bytes that occur (at offset %d) in the stream of upstream %s", q, o.Up)
+		}
+	}
+	return ""
+}
+
+func c09Check(r *simcore.Run, sc *c09Scenario, t *c09Tunnel, finished bool, entitled string) {
 	path := " path=" + sc.Mode
 	what := fmt.Sprintf("%s tunnel %s -> %s (pxyproto=%v, close order %s)", sc.Mode, t.Client, t.Up, t.Pxy, t.Order)
 	wantUp := append(append([]byte(nil), t.hdr...), t.c...)
 	gotUp, gotCl := t.up.Received(), t.cl.Received()
-	r.Tracef("tunnel %s order=%s fault=%q up=%d/%d cl=%d/%d finished=%v", t.Client, t.Order, t.Fault, len(gotUp), len(wantUp), len(gotCl), len(t.u), finished)
+	r.Tracef("tunnel %s order=%s fault=%q may-time-out=%q up=%d/%d cl=%d/%d finished=%v", t.Client, t.Order, t.Fault, entitled, len(gotUp), len(wantUp), len(gotCl), len(t.u), finished)
+	if next, _ := t.cl.Progress(); next == 0 && t.After > 0 {
+		// the tunnel it waits for never came to its end, so this one never started: nothing to judge
+		r.Probe("tunnel_never_started")
+		return
+	}
 	if n := t.up.Extra(); n > 0 {
 		r.Fail("dial", "more-than-one-upstream-connection"+path, "%s: the upstream received %d connections for one client connection", what, n+1)
 	}
@@ -527,9 +1002,28 @@ func c09Check(r *simcore.Run, sc *c09Scenario, t *c09Tunnel, finished bool) {
 	}
 	kUp, atUp := simpeer.Diff(wantUp, gotUp)
 	kCl, atCl := simpeer.Diff(t.u, gotCl)
+	// bytes that are not the sender's: whose are they?
+	var whoseUp, whoseCl string
+	if kUp == "modified" {
+		if whoseUp = c09Foreign(sc, t, gotUp, atUp); whoseUp != "" {
+			kUp, whoseUp = "bytes-of-another-connection", ": the upstream received "+whoseUp
+		}
+	}
+	if kCl == "modified" {
+		if whoseCl = c09Foreign(sc, t, gotCl, atCl); whoseCl != "" {
+			kCl, whoseCl = "bytes-of-another-connection", ": the client received "+whoseCl
+		}
+	}
+	relaxed, under := t.Fault, "-under-reset"
 	if t.Fault != "" {
 		// relaxed for this tunnel only: whatever arrived is a prefix of what was sent
 		r.Fault(t.Fault)
+	} else if entitled != "" {
+		// a configured timeout entitled fabio to end this tunnel (c09Timing): prefixes only
+		relaxed, under = entitled, "-after-timeout"
+		r.Probe("may_time_out_" + entitled)
+	}
+	if relaxed != "" {
 		upFull, clFull = false, false
 	}
 
@@ -544,38 +1038,42 @@ func c09Check(r *simcore.Run, sc *c09Scenario, t *c09Tunnel, finished bool) {
 		r.Fail("proxy-line", sig+path, "%s: the upstream's stream must start with %q, it starts with %q", what, t.hdr, gotUp[:min(len(gotUp), len(t.hdr)+8)])
 		return
 	}
-	if t.Fault != "" {
+	if relaxed != "" {
 		if kUp != "" && kUp != "truncated" {
-			r.Fail("stream", "c2u/"+kUp+"-under-reset"+path, "%s with %s: the upstream's bytes differ from the sent stream at offset %d (%s)", what, t.Fault, atUp-len(t.hdr), kUp)
+			r.Fail("stream", "c2u/"+kUp+under+path, "%s with %s: the upstream's bytes differ from the sent stream at offset %d (%s)%s", what, relaxed, atUp-len(t.hdr), kUp, whoseUp)
 		}
 		if kCl != "" && kCl != "truncated" {
-			r.Fail("stream", "u2c/"+kCl+"-under-reset"+path, "%s with %s: the client's bytes differ from the sent stream at offset %d (%s)", what, t.Fault, atCl, kCl)
+			r.Fail("stream", "u2c/"+kCl+under+path, "%s with %s: the client's bytes differ from the sent stream at offset %d (%s)%s", what, relaxed, atCl, kCl, whoseCl)
 		}
 		return
+	}
+	timing := ""
+	if sc.ReadTimeout > 0 || sc.WriteTimeout > 0 {
+		timing = fmt.Sprintf(" [listener read timeout %s, write timeout %s; the client was never silent for the read timeout before the end of its stream and never left fabio's bytes untaken for the write timeout]", sc.ReadTimeout, sc.WriteTimeout)
 	}
 	// half-close: the reply must arrive
 	if t.Order == "halfclose" && kUp == "" && kCl == "truncated" {
 		if ended, _ := t.up.ReadEnd(); !ended {
-			r.Fail("halfclose", "eof-not-propagated"+path, "%s: the client half-closed after its %d bytes, all of them arrived, but the upstream never saw the end of the stream (so it cannot reply)", what, len(t.c))
+			r.Fail("halfclose", "eof-not-propagated"+path, "%s: the client half-closed after its %d bytes, all of them arrived, but the upstream never saw the end of the stream (so it cannot reply)%s", what, len(t.c), timing)
 		} else {
-			r.Fail("halfclose", "reply-lost"+path, "%s: the client half-closed after sending and kept reading; the upstream saw EOF and sent its reply, but the client received only %d of the upstream's %d bytes", what, len(gotCl), len(t.u))
+			r.Fail("halfclose", "reply-lost"+path, "%s: the client half-closed after sending and kept reading; the upstream saw EOF and sent its reply, but the client received only %d of the upstream's %d bytes (the client's read ended with: %v)%s", what, len(gotCl), len(t.u), c09ReadErr(t.cl), timing)
 		}
 		return
 	}
 	// upstream half-close: what the client sends afterwards must arrive
 	if t.Order == "upstream-halfclose" && kCl == "" && kUp == "truncated" {
 		_, cwrote := t.cl.Progress()
-		r.Fail("halfclose", "client-stream-cut-after-upstream-finished"+path, "%s: the upstream sent its %d bytes, half-closed and kept reading; all of its bytes reached the client, which had %d more bytes to send (it could write %d of its %d, write error: %v), but the upstream received only %d of the client's %d bytes", what, len(t.u), len(t.c)-t.HelloLen-t.CEarly, cwrote, len(t.c), t.cl.WriteErr(), max(len(gotUp)-len(t.hdr), 0), len(t.c))
+		r.Fail("halfclose", "client-stream-cut-after-upstream-finished"+path, "%s: the upstream sent its %d bytes, half-closed and kept reading; all of its bytes reached the client, which had %d more bytes to send (it could write %d of its %d, write error: %v), but the upstream received only %d of the client's %d bytes%s", what, len(t.u), len(t.c)-t.HelloLen-t.CEarly, cwrote, len(t.c), t.cl.WriteErr(), max(len(gotUp)-len(t.hdr), 0), len(t.c), timing)
 		return
 	}
-	fail := func(dir, kind string, at, got, want int) {
-		r.Fail("stream", dir+"/"+kind+path, "%s: %s stream differs from what was sent at offset %d: %s (received %d bytes, sent %d)", what, dir, at, kind, got, want)
+	fail := func(dir, kind string, at, got, want int, whose string) {
+		r.Fail("stream", dir+"/"+kind+path, "%s: %s stream differs from what was sent at offset %d: %s (received %d bytes, sent %d)%s%s", what, dir, at, kind, got, want, whose, timing)
 	}
 	if kUp != "" && (kUp != "truncated" || upFull) {
-		fail("c2u", kUp, atUp-len(t.hdr), len(gotUp)-len(t.hdr), len(t.c))
+		fail("c2u", kUp, atUp-len(t.hdr), len(gotUp)-len(t.hdr), len(t.c), whoseUp)
 	}
 	if kCl != "" && (kCl != "truncated" || clFull) {
-		fail("u2c", kCl, atCl, len(gotCl), len(t.u))
+		fail("u2c", kCl, atCl, len(gotCl), len(t.u), whoseCl)
 	}
 	if kUp == "" && kCl == "" {
 		if len(t.c) > 0 || len(t.u) > 0 {
@@ -592,8 +1090,28 @@ func c09Check(r *simcore.Run, sc *c09Scenario, t *c09Tunnel, finished bool) {
 		if t.HelloLen > 4096 {
 			r.Probe("hello_above_4k")
 		}
+		if t.HelloLen > 12<<10 {
+			r.Probe("hello_above_12k")
+		}
+		if t.HelloLen > 0 && t.HelloLen < 400 {
+			r.Probe("hello_below_400")
+		}
 		if len(t.c) > 64<<10 || len(t.u) > 64<<10 {
 			r.Probe("stream_above_window")
 		}
+		if len(t.Pauses) > 0 {
+			r.Probe("complete_with_pauses")
+		}
+		if t.After > 0 {
+			r.Probe("complete_after_another_tunnel")
+			if p := sc.Tunnels[t.After-1]; p.HelloLen > t.HelloLen {
+				r.Probe("hello_shorter_than_predecessor")
+			}
+		}
 	}
+}
+
+func c09ReadErr(p *simpeer.Peer) error {
+	_, err := p.ReadEnd()
+	return err
 }
